@@ -53,7 +53,14 @@ class HangDetected(BaseException):
 cachers_mod.time = _ShimTime()
 
 
+ARRAYS = []
+
+
 class MonArray(sched.FakeArray):
+    def __init__(self, ctype, init):
+        super().__init__(ctype, init)
+        ARRAYS.append(self)
+
     def __setitem__(self, i, v):
         sched.yield_point(f'{self._key}[{i}]', 'write')
         self._cells[i] = v
@@ -73,6 +80,8 @@ def _find_collision():
         if ix in seen: return seen[ix], k
         seen[ix] = k
 
+
+sched.FakeContext.ARRAY_CLS = MonArray
 
 K1, K2 = _find_collision()          # different keys, same 16-bit lock index
 K3 = next(f'd{i}' for i in itertools.count() if _index(f'd{i}') != _index(K1))
@@ -220,14 +229,35 @@ def run_prog(cacher, inner, prog, who, empty_ok=False):
     sched.record(('locks', who, held))
 
 
+class WiredUser:
+    """The filter run by CobaMultiprocessor's workers: each item is one caller program, run on whatever cacher the worker was given."""
+    def filter(self, item):
+        from coba.context import CobaContext
+        inner, prog, who, eo = item
+        run_prog(CobaContext.cacher, inner, prog, who, eo)
+        yield who
+
+
 def make_body(case):
     progs, mode = case['progs'], case['mode']
     def body():
         WRITE_EPOCH[0] = 0
+        del ARRAYS[:]
         inner = MonCache()
         for k, st in (case.get('initial') or {}).items():
             inner.data[KEYS[k]] = ('empty',) if st == 'empty' else ('complete', f'value-of-{KEYS[k]}')
             if st == 'empty': inner.had_empty = True
+        if mode == 'wired':
+            # the callers are the worker processes of the REAL CobaMultiprocessor, which builds the ConcurrentCacher itself
+            from coba.context import CobaContext, BasicLogger
+            from coba.pipes import ListSink
+            from coba.multiprocessing import CobaMultiprocessor
+            CobaContext.logger = BasicLogger(ListSink()); CobaContext.cacher = inner; CobaContext.store = {}
+            eo = 'empty' in (case.get('initial') or {}).values()
+            got = list(CobaMultiprocessor(WiredUser(), len(progs), 0).filter([(inner, p, i, eo) for i, p in enumerate(progs)]))
+            if sorted(got) != list(range(len(progs))): inner._bad('a caller program was not run exactly once', str(got))
+            cells = {f'{n}:{i}': v for n, a in enumerate(ARRAYS) for i, v in enumerate(a._cells) if v != 0}
+            return {'cells': cells, 'readers': +inner.readers, 'writers': +inner.writers}
         array = MonArray(None, [0] * 2 ** 16)
         lock = sched.FAKE.Lock()
         cacher = ConcurrentCacher(inner, array, lock)
@@ -342,6 +372,9 @@ class C19(Check):
             for c3 in (('rmv', 'k1'), ('get', 'k1')):
                 if tier == 'quick' and mode == 'procs' and c3[0] == 'get': continue
                 out.append({'kind': 'sched', 'mode': mode, 'progs': [[('get', 'k1')], [('get', 'k1')], [c3]]})
+        # the callers are workers of the real CobaMultiprocessor (which must hand every worker the SAME lock and counters)
+        for a, b in ([('get', 'get'), ('get', 'rmv')] if tier == 'quick' else [(a, b) for a in OPS for b in OPS if a <= b]):
+            out.append({'kind': 'sched', 'mode': 'wired', 'progs': [[(a, 'k1')], [(b, 'k1')]]})
         if tier == 'thorough':
             for mode in ('threads', 'procs'):
                 for p in seq2:
@@ -361,6 +394,7 @@ class C19(Check):
         return split + disk_cases(tier)
 
     def bound(self, case):
+        if case['mode'] == 'wired': return 1 if self._tier == 'quick' else 2
         if self._tier == 'quick': return 2
         n = len(case['progs']); ops = sum(len(p) for p in case['progs'])
         return 3 if (n == 2 and ops <= 2) else 2
@@ -386,7 +420,7 @@ class C19(Check):
             on_exec(sched.execute(factory(), schedule['schedule'], schedule['policy']), tuple(schedule['schedule']), schedule['policy'])
             return
         cap = 6000 if self._tier == 'quick' else 80000
-        policies = (case['policy'],) if case.get('policy') else ('low', 'high')
+        policies = (case['policy'],) if case.get('policy') else (('low', 'high', 'rr') if case['mode'] == 'wired' else ('low', 'high'))
         st = sched.explore(factory, self.bound(case), policies, cap=cap, on_exec=on_exec, part=tuple(case['part']) if case.get('part') else None)
         acc.states += st['points']; acc.transitions += st['transitions']; acc.traces += st['executions']
         acc.count('executions', st['executions'])
@@ -502,6 +536,12 @@ class C19(Check):
             if not line: raise HarnessError(f'real cache run {sp} produced no observation: {err[-500:]}')
             o = json.loads(line[-1][4:])
             full = ['line one', 'line two', 'line three']
+            if sp['second'] == 'wired':
+                if o['starts'] != 1 or o['ends'] != 1:
+                    acc.violation(f'ConcurrentCacher|two writers populate the same key|{feat}', f"getter started {o['starts']} and finished {o['ends']} times for two workers of CobaMultiprocessor", wit)
+                if o['wired'] != [[0, 'value', full], [1, 'value', full]]:
+                    acc.violation(f'ConcurrentCacher|caller received an incomplete value|{feat}', f"workers got {o['wired']} (log {o['log']})", wit)
+                n += 1; continue
             if o.get('hung'): acc.violation(f'ConcurrentCacher|caller waits forever|{feat}', 'a process was still alive after 60s', wit)
             if o.get('second.finished_while_writing'):
                 acc.violation(f'ConcurrentCacher|entry accessed while being written|{feat}', f"the second process finished ({o.get('second.result')}) while the writer was inside its getter", wit)
@@ -517,7 +557,7 @@ class C19(Check):
         return n
 
     def post(self, acc, tier):
-        specs = [{'key': 'abc', 'second': 'get'}, {'key': 'abc', 'second': 'rmv'}]
+        specs = [{'key': 'abc', 'second': 'get'}, {'key': 'abc', 'second': 'rmv'}, {'key': 'abc', 'second': 'wired'}]
         if tier == 'thorough': specs += [{'key': 'k7', 'second': 'get'}, {'key': 'openml_042693_arff', 'second': 'get'}, {'key': 'openml 042693.csv', 'second': 'rmv'}]      # DiskCacher keys are strings
         n = self.real_runs(specs, acc)
         acc.traces += n
